@@ -278,6 +278,104 @@ async fn stress_case(t: &[&str]) -> String {
     out
 }
 
+/// subrace <millis> <seed>: two threads keep changing the set (add / remove real connections) while four
+/// threads subscribe in a tight loop; every subscription is followed for a while and must be an exact
+/// change log relative to its own snapshot (NewPeer only for a peer not in it, LostPeer only for one in it).
+async fn subrace_case(t: &[&str]) -> String {
+    let fab = Fabric::new(13);
+    fabric::install(&fab);
+    let millis: u64 = t[1].parse().unwrap();
+    let seed: u64 = t[2].parse().unwrap();
+    let s = Arc::new(setup(2, "0o,0i,1o,1i", 3000).await);
+    let ap = VerifActivePeers::new(1 << 16);
+    let stop = Arc::new(std::sync::atomic::AtomicBool::new(false));
+    let mut muts = Vec::new();
+    for th in 0..2u64 {
+        let (ap, s, stop) = (ap.clone(), s.clone(), stop.clone());
+        muts.push(std::thread::spawn(move || {
+            let mut x = seed.wrapping_mul(0x9E3779B97F4A7C15).wrapping_add(th * 7919 + 1) | 1;
+            let own = s.own.peer_id();
+            let mut n = 0u64;
+            while !stop.load(std::sync::atomic::Ordering::Relaxed) {
+                x ^= x >> 12;
+                x ^= x << 25;
+                x ^= x >> 27;
+                let r = x.wrapping_mul(0x2545F4914F6CDD1D) >> 33;
+                let i = (r as usize / 4) % s.conns.len();
+                match r % 4 {
+                    0 | 1 => {
+                        let _ = ap.add(&own, s.conns[i].0.clone());
+                    }
+                    2 => ap.remove(&s.peers[s.conns[i].1].peer_id(), REASONS[0].clone()),
+                    _ => ap.remove_with_stable_id(s.peers[s.conns[i].1].peer_id(), s.conns[i].0.stable_id(), REASONS[3].clone()),
+                }
+                n += 1;
+            }
+            n
+        }));
+    }
+    let mut subs = Vec::new();
+    for _ in 0..4 {
+        let (ap, stop) = (ap.clone(), stop.clone());
+        subs.push(std::thread::spawn(move || {
+            let mut window: std::collections::VecDeque<(std::collections::HashSet<PeerId>, broadcast::Receiver<PeerEvent>)> = Default::default();
+            let (mut count, mut bad) = (0u64, 0u64);
+            let mut first = String::new();
+            // returns false when the subscription lagged behind (events were dropped by the channel): it is then forgotten
+            let check = |set: &mut std::collections::HashSet<PeerId>, rx: &mut broadcast::Receiver<PeerEvent>, bad: &mut u64, first: &mut String| -> bool {
+              loop {
+                match rx.try_recv() {
+                    Ok(PeerEvent::NewPeer(p)) => {
+                        if !set.insert(p) {
+                            *bad += 1;
+                            if first.is_empty() {
+                                *first = "NewPeer_for_a_peer_already_in_the_subscribers_view".into();
+                            }
+                        }
+                    }
+                    Ok(PeerEvent::LostPeer(p, _)) => {
+                        if !set.remove(&p) {
+                            *bad += 1;
+                            if first.is_empty() {
+                                *first = "LostPeer_for_a_peer_not_in_the_subscribers_view".into();
+                            }
+                        }
+                    }
+                    Err(broadcast::error::TryRecvError::Lagged(_)) => return false,
+                    Err(_) => return true,
+                }
+              }
+            };
+            while !stop.load(std::sync::atomic::Ordering::Relaxed) {
+                let (rx, snap) = ap.subscribe();
+                count += 1;
+                window.push_back((snap.into_iter().collect(), rx));
+                if window.len() > 48 {
+                    window.pop_front();
+                }
+                if count % 4 == 0 {
+                    window.retain_mut(|(set, rx)| check(set, rx, &mut bad, &mut first));
+                }
+            }
+            (count, bad, first)
+        }));
+    }
+    std::thread::sleep(std::time::Duration::from_millis(millis));
+    stop.store(true, std::sync::atomic::Ordering::Relaxed);
+    let changes: u64 = muts.into_iter().map(|h| h.join().unwrap()).sum();
+    let (mut count, mut bad, mut first) = (0u64, 0u64, String::new());
+    for h in subs {
+        let (c, b, f) = h.join().unwrap();
+        count += c;
+        bad += b;
+        if first.is_empty() {
+            first = f;
+        }
+    }
+    anemo::verif::set_socket_factory(None);
+    format!("subscriptions={count} changes={changes} bad={bad} first={}", if first.is_empty() { "-".into() } else { first })
+}
+
 /// md <lt> <label,label,...>: replays one schedule of the mutual-dial transition system on two
 /// real ActivePeers sets with two real connections X (dialed by A) and Y (dialed by B).
 async fn md_case(t: &[&str]) -> String {
@@ -380,6 +478,7 @@ pub fn run() {
                 "ap" => rt.block_on(ap_case(t)),
                 "apstress" => rt.block_on(stress_case(t)),
                 "md" => rt.block_on(md_case(t)),
+                "subrace" => rt.block_on(subrace_case(t)),
                 // tb <own rank> <remote rank> <existing i|o> <new i|o>  (ranks 0..255 as first key byte)
                 "tb" => {
                     let mk = |r: &str, pos: usize| {
